@@ -6,6 +6,8 @@
     neighbours (prefixes, one-nibble-off, extensions) -- inductive over histories (hexcommon docstring).
 (c) squash_changes batches of <=2 (3) operations left normally or by an exception after any operation, followed by a direct
     write to the key the batch touched first: reads inside the batch, after it and after the later write follow the map model.
+(d) a set() whose value CONTENT is a symbolic byte string of 32 bytes (thorough: also 1 byte): get returns it, exists / in are true (this is where a value
+    that happens to equal a sentinel constant such as the blank-root hash is found by the solver).
 (b) symbolic lookups: on the canonical trie of every contents set of the query family, get(q) for a
     symbolic byte string q (len <= 3 quick / 4 thorough) equals the contents.
 """
@@ -49,6 +51,9 @@ def jobs(tier):
         out.append({"module": "vf.props.hexquery", "fn": "h_lookup", "cfg": dict(qbase, mi=mi), "pct": 900, "ppt": 30})
     out.append({"module": "vf.props.hexquery", "fn": "r_lookup", "cfg": dict(qbase, mi=nq - 1), "pct": 300, "ppt": 30, "kind": "reach"})
     # (c) multi-operation batches, committed or aborted, then a later direct write: reads must follow the map model
+    # (d) one stored value with symbolic CONTENT (keccak replaced by an injective interning function): get / exists / in
+    sym = hexstep.symval_jobs(tier, ["map"], seed, [False])
+    out += [j for j in sym if j["cfg"]["vlen"] == 32][:: (4 if tier == "quick" else 1)] + ([j for j in sym if j["cfg"]["vlen"] == 1] if tier != "quick" else [])
     out += hexbatch.batch_jobs(tier, ["inbatch", "reads", "usable"], seed, [True] if tier == "quick" else [False, True],
                                exits="all", select=(lambda mi, pi: mi % 2 == 0) if tier == "quick" else (lambda mi, pi: mi % 3 == pi))
     return out
